@@ -7,7 +7,7 @@ from vlib import NoVerdict
 OWN = {
     "C07": {"sizes", "unique", "noSelf", "rightBucket", "ipBucket", "ipTable", "known", "noPanic"},
     "C18": {"noEviction", "fullKeeps", "removalCause", "succession", "recordVersion", "endpointClearsLive", "creditKept", "creditSpent", "creditExhausted",
-            "staleIgnored"},
+            "staleIgnored", "newcomerQueued"},
 }
 
 
